@@ -16,8 +16,7 @@ import numpy as np
 
 from .. import universe as U
 from ..core import guarded
-from ..tags_common import (common_scale, conn_tables, crc, mesh_am, mesh_checksums, points_enc, quiet,
-                           values_enc_pair)
+from ..tags_common import common_scale, conn_tables, mesh_am, mesh_checksums, points_enc, quiet, values_enc_pair
 
 RULE = ('scenario = one mesh (class, order, coordinates, cell list) with one set of named sub-domains and named '
         'boundaries (boundary and interior facets, orientation flags) and user data, exported through several '
@@ -266,7 +265,7 @@ def base_meshes(tier, rng):
         t2 = U.apply_local_orders(kind, t2, rng)
         var.append((kind, p2, t2, fam + '-renumbered'))
     # random tier: integer Delaunay
-    nd = 30 if thorough else 6
+    nd = 60 if thorough else 6
     for j in range(nd):
         dim = 2 if j % 2 == 0 else 3
         p, t = U.delaunay_int(dim, int(rng.integers(5, 10 if dim == 2 else 8)), 6 if dim == 2 else 4, rng)
@@ -306,7 +305,7 @@ def generate(tier, seed):
     thorough = tier == 'thorough'
     recs = []
     meshes = base_meshes(tier, rng)
-    reps = 6 if thorough else 1
+    reps = 14 if thorough else 1
     for rep in range(reps):
         for n, (kind, p, t, fam) in enumerate(meshes):
             fm1 = list(ALL_FMTS)
@@ -323,15 +322,16 @@ def generate(tier, seed):
             if (n + rep) % (2 if thorough else 4) == 0:
                 recs.append(make_recipe(kind, p, t, fam + '-float', rng, 1 + (n // 4) % 2 if t.shape[1] <= 8 else 1,
                                         ['mem', 'gmsh22', 'gmsh41', 'vtk', 'vtu', 'npz'], floats=True))
+    # names containing the separator of the cell-data keys ("skfem:b:<name>")
+    for (kind, p, t, fam) in meshes[:2]:
+        r = make_recipe(kind, p, t, 'colon-name', rng, 1, ['mem', 'vtu', 'gmsh22', 'npz', 'dict'], userdata=False)
+        r['bnd'] = {'wall:inner': {'f': [0, 1], 'ori': None}}
+        r['sub'] = {'zone:1': [0]}
+        recs.append(r)
     # meshes without any tag (None must not turn into an error), empty tag arrays
     for (kind, p, t, fam) in meshes[::5]:
         recs.append(make_recipe(kind, p, t, fam + '-untagged', rng, 1, ALL_FMTS, notags=True))
     return recs
-
-
-def tagclass(rec, m=None):
-    """what known findings match on: does some boundary name hold an interior facet together with another facet?"""
-    return 'tlc-multi' if rec.get('multi') else ''
 
 
 def scenario(sid, rec):
@@ -401,7 +401,8 @@ def run(ctx):
     ctx.notes['events_per_format'] = fm
     return ctx.finish(rule=RULE, assumptions=[
         'orientation flag 1 is only put on interior facets (flag 1 on a boundary facet has no owner cell)',
-        'tag names are drawn from [A-Za-z0-9_.-]; names containing ":" or blanks are not explored',
+        'tag names are drawn from [A-Za-z0-9_.-] (plus one family with ":"); names with blanks are not explored '
+        '(meshio refuses them for VTK)',
         'dictionary / JSON forms are exercised for first-order meshes only, as the statement says',
         'text formats with limited precision (ASCII .vtu) get dyadic coordinates and data only',
         'TLC 1.8.0, the CommunityModules Json module and meshio 5.3.5 are trusted'],
